@@ -250,6 +250,29 @@ func (c *countingRT) RoundTrip(r *http.Request) (*http.Response, error) {
 	return &http.Response{StatusCode: 200, Proto: "HTTP/1.1", ProtoMajor: 1, ProtoMinor: 1, Header: http.Header{}, Body: io.NopCloser(strings.NewReader("upstream-ok")), ContentLength: 11, Request: r}, nil
 }
 
+// lookupFor builds the route the way a configuration does and answers lookups through
+// Table.Lookup, as main.go does (a redirect route is copied per request there).
+func lookupFor(t *rapid.T, opts map[string]string, redirect bool) func(*http.Request) *route.Target {
+	dst := "http://upstream.invalid:80/"
+	o := map[string]string{}
+	for k, v := range opts {
+		o[k] = v
+	}
+	if redirect {
+		dst = "https://elsewhere.example/$path"
+		o["redirect"] = "301"
+	}
+	defs := []route.RouteDef{{Cmd: route.RouteAddCmd, Service: "svc", Src: "/", Dst: dst, Opts: o}}
+	tbl, err := route.NewTableCustom(&defs)
+	if err != nil {
+		t.Fatalf("route with access rule rejected: %v (opts %v)", err, o)
+	}
+	cache := route.NewGlobCache(10)
+	return func(r *http.Request) *route.Target {
+		return tbl.Lookup(r, "", route.Picker["rr"], route.Matcher["prefix"], cache, false)
+	}
+}
+
 func targetFor(t *rapid.T, opts map[string]string, spaces bool) *route.Target {
 	defs := []route.RouteDef{{Cmd: route.RouteAddCmd, Service: "svc", Src: "/", Dst: "http://upstream.invalid:80/", Opts: opts}}
 	tbl, err := route.NewTableCustom(&defs)
@@ -271,7 +294,8 @@ func TestC12AccessRulesHTTP(t *testing.T) {
 	hx.Check(t, hx.Scale(100000, 1000000), func(t *rapid.T) {
 		spaces := rapid.Bool().Draw(t, "spaces")
 		kind, items, opts := genRule(t, spaces)
-		tg := targetFor(t, opts, spaces)
+		redirect := rapid.IntRange(0, 3).Draw(t, "redirect-route") == 0
+		lookup := lookupFor(t, opts, redirect)
 		peer := genAddr(t, items, "peer")
 		zone := ""
 		if peer.Is6() && !peer.Is4In6() && rapid.IntRange(0, 3).Draw(t, "zoned") == 0 {
@@ -307,7 +331,7 @@ func TestC12AccessRulesHTTP(t *testing.T) {
 			p := &proxy.HTTPProxy{
 				Config:    config.Proxy{},
 				Transport: rt,
-				Lookup:    func(*http.Request) *route.Target { return tg },
+				Lookup:    lookup,
 			}
 			req := httptest.NewRequest("GET", "http://example.com/x", nil)
 			req.RemoteAddr = remoteAddrString(peer, zone, port)
@@ -319,7 +343,7 @@ func TestC12AccessRulesHTTP(t *testing.T) {
 			hx.Eval()
 			want := refDecision(kind, items, addrs)
 			hits := atomic.LoadInt64(&rt.hits)
-			desc = fmt.Sprintf("opts=%v remote=%s xff=%q (request %d of %d on this target)", opts, req.RemoteAddr, strings.Join(xff, ","), round+1, rounds)
+			desc = fmt.Sprintf("opts=%v redirect-route=%v remote=%s xff=%q (request %d of %d on this target)", opts, redirect, req.RemoteAddr, strings.Join(xff, ","), round+1, rounds)
 			lastCode = rec.Code
 			switch {
 			case rec.Code == 403:
@@ -330,7 +354,7 @@ func TestC12AccessRulesHTTP(t *testing.T) {
 					t.Fatalf("request denied although every address is admitted by the (well-formed) rule\n%s", desc)
 				}
 				hx.Class("http:denied")
-			case rec.Code == 200:
+			case rec.Code == 200 && !redirect:
 				if hits != 1 {
 					t.Fatalf("200 but upstream hits = %d\n%s", hits, desc)
 				}
@@ -338,6 +362,14 @@ func TestC12AccessRulesHTTP(t *testing.T) {
 					t.Fatalf("request forwarded although the access rule does not admit it\n%s", desc)
 				}
 				hx.Class("http:admitted")
+			case rec.Code == 301 && redirect:
+				if hits != 0 {
+					t.Fatalf("redirect route contacted an upstream\n%s", desc)
+				}
+				if want == mustDeny {
+					t.Fatalf("request answered with the route's redirect (Location %q) although the access rule does not admit it\n%s", rec.Header().Get("Location"), desc)
+				}
+				hx.Class("http:admitted-on-a-redirect-route")
 			default:
 				t.Fatalf("unexpected status %d\n%s", rec.Code, desc)
 			}
